@@ -233,9 +233,12 @@ def r2(fx):
                  want=r'^...\Z without any construct matching \r or \n')
     j = [s for s in fn.body if isinstance(s, ast.Return)]
     r = single(j, 'return of make_vcard_data')
-    yield ob('vCard lines are joined with CRLF, BEGIN first, END last', pat.match(r.value, "'\\r\\n'.join(data)") is not None
-             and _list_head(fn, 'data')[:2] == ['BEGIN:VCARD', 'VERSION:3.0'] and _appends(fn, 'data')[-2:] == ["'END:VCARD'", "''"], r,
-             got=(ast.unparse(r.value), _list_head(fn, 'data')[:2], _appends(fn, 'data')[-2:]), want="'\\r\\n'.join(data)")
+    bj = pat.match(r.value, "'\\r\\n'.join(H_d)")
+    dn = bj['d'].id if bj is not None and isinstance(bj['d'], ast.Name) else None
+    need(dn is not None, 'make_vcard_data: join of the line list')
+    yield ob('vCard lines are joined with CRLF, BEGIN first, END last', _list_head(fn, dn)[:2] == ['BEGIN:VCARD', 'VERSION:3.0']
+             and _appends(fn, dn)[-2:] == ["'END:VCARD'", "''"], r,
+             got=(ast.unparse(r.value), _list_head(fn, dn)[:2], _appends(fn, dn)[-2:]), want="'\\r\\n'.join(<lines>)")
 
 
 def _list_head(fn, name):
@@ -301,7 +304,7 @@ def r4(fx):
     yield ob(f'float_to_str on {len(samples)} sample numbers (sampled)', not bad, r, got=bad[:4], want=[])
     gd = fx.fn('helpers', 'make_geo_data')
     rr = single([s for s in gd.body if isinstance(s, ast.Return)], 'return of make_geo_data')
-    yield ob('geo payload = geo:<lat>,<lng>', nf.norm(rr.value) == nf.norm(ast.parse("f'geo:{float_to_str(lat)},{float_to_str(lng)}'", mode='eval').body), rr,
+    yield ob('geo payload = geo:<lat>,<lng>', nf.same(rr.value, "f'geo:{float_to_str(lat)},{float_to_str(lng)}'"), rr,
              got=ast.unparse(rr.value), want="f'geo:{float_to_str(lat)},{float_to_str(lng)}'")
 
 
